@@ -391,8 +391,9 @@ def r10_no_division_by_a_design_parameter(ctx):
     ctx.rule("C18.R10", "the generating functions never divide by (or take the log of) a design parameter that the validation allows to be 0", 3)
     n = 0
     cp = ctx.ix.func(SIM, f"{CLS}._check_params", "C18.R10")
-    src_cp = U(cp.node)
-    ctx.anchor("param == 'patient_number' and value <= 0" in src_cp and "param.endswith('_std') and value < 0" in src_cp, "C18.R10", cp, cp.node,
+    from ..astq import canon_lines, unify as _unify
+    b_cp = _unify(canon_lines(cp.node, False, True), ["if ?p == 'patient_number' and ?v <= 0", "if ?p.endswith('_std') and ?v < 0"])
+    ctx.anchor(b_cp is not None, "C18.R10", cp, cp.node,
                "the validation refuses patient_number <= 0 and only negative standard deviations (table STRICTLY_POSITIVE of this rule)", "validation of the signs of the design parameters", construct="sign table")
     for name in ("_generate_visit_ages", "_generate_dataset", "_sample_individual_parameters_from_model_parameters"):
         f = ctx.ix.func(SIM, f"{CLS}.{name}", "C18.R10")
